@@ -65,11 +65,76 @@ impl LineMap {
     pub fn normalize(text: String) -> (r: (String, LineMap)) ensures r.0@ == strip_cr(text@), r.1 == lm_of(r.0@) { unimplemented!() }
 }
 // ide::Change: the analysis is told (file, text)
-pub struct Change { pub calls: Vec<(FileId, Arc<str>)> }
+pub struct Change { pub calls: Vec<(FileId, Arc<str>)>, pub structural: bool }
 impl Change {
-    pub fn change_file(&mut self, file: FileId, text: Arc<str>) ensures final(self).calls@ == old(self).calls@.push((file, text)) { self.calls.push((file, text)); }
+    pub fn change_file(&mut self, file: FileId, text: Arc<str>) ensures final(self).calls@ == old(self).calls@.push((file, text)), final(self).structural == old(self).structural { self.calls.push((file, text)); }
+    pub fn set_structural_change(&mut self) ensures final(self).calls@ == old(self).calls@, final(self).structural { self.structural = true; }
 }
-pub struct Vfs { pub files: Slab<(Arc<str>, Arc<LineMap>)>, pub change: Change }
+// ide::FileSet by its contract (two maps; crates/ide/src/base.rs)
+#[verifier::external_body]
+pub struct VfsPath { _x: u8 }
+#[verifier::external_body]
+pub struct Url { _x: u8 }
+impl Url {
+    pub uninterp spec fn vpath(&self) -> VfsPath;
+    #[verifier::external_body]
+    pub fn to_vfs_path(&self) -> (r: VfsPath) ensures r == self.vpath() { unimplemented!() }
+}
+#[verifier::external_body]
+pub struct FileSet { _x: u8 }
+impl FileSet {
+    pub uninterp spec fn files(&self) -> Map<VfsPath, FileId>;
+    pub uninterp spec fn paths(&self) -> Map<FileId, VfsPath>;
+    #[verifier::external_body]
+    pub fn insert(&mut self, file: FileId, path: VfsPath)
+        ensures final(self).files() == old(self).files().insert(path, file), final(self).paths() == old(self).paths().insert(file, path)
+    { unimplemented!() }
+    #[verifier::external_body]
+    pub fn remove_file(&mut self, file: FileId)
+        ensures old(self).paths().contains_key(file) ==> final(self).paths() == old(self).paths().remove(file) && final(self).files() == old(self).files().remove(old(self).paths()[file]),
+            !old(self).paths().contains_key(file) ==> final(self).paths() == old(self).paths() && final(self).files() == old(self).files(),
+    { unimplemented!() }
+    #[verifier::external_body]
+    pub fn file_for_path(&self, path: &VfsPath) -> (r: Option<FileId>)
+        ensures r is Some <==> self.files().contains_key(*path), r is Some ==> r->Some_0 == self.files()[*path]
+    { unimplemented!() }
+}
+pub struct Vfs { pub files: Slab<(Arc<str>, Arc<LineMap>)>, pub local_file_set: FileSet, pub change: Change }
+// slab's vacant-entry protocol: the entry holds the slab mutably; inserting through it fills the slot
+#[verifier::reject_recursive_types(T)]
+pub struct VacantEntry<'a, T> { pub slab: &'a mut Slab<T>, pub key: usize }
+impl<'a, T> VacantEntry<'a, T> {
+    pub fn key(&self) -> (r: usize) ensures r == self.key { self.key }
+    #[verifier::external_body]
+    pub fn insert(self, val: T) ensures final(self.slab)@ == old(self.slab)@.insert(self.key as int, val) { unimplemented!() }
+}
+impl<T> Slab<T> {
+    pub uninterp spec fn slots(&self) -> int;   // number of slots ever allocated; a vacant key is at most that
+    #[verifier::external_body]
+    pub fn vacant_entry(&mut self) -> (r: VacantEntry<'_, T>)
+        ensures !old(self)@.dom().contains(r.key as int), r.key <= old(self).slots(), *r.slab == *old(self), *final(r.slab) == *final(self)
+    { unimplemented!() }
+    #[verifier::external_body]
+    pub fn remove(&mut self, k: usize) -> (r: T)
+        requires old(self)@.dom().contains(k as int)
+        ensures final(self)@ == old(self)@.remove(k as int), r == old(self)@[k as int]
+    { unimplemented!() }
+}
+// R28: `"..".into()` where an Arc<str> is expected
+#[verifier::external_body]
+pub fn verif_arc_str(s: &str) -> (r: Arc<str>) ensures r@ == s@ { s.into() }
+// anyhow::Context::with_context on an Option, minus the message (R27)
+pub fn verif_with_context<T>(o: Option<T>) -> (r: Result<T>) ensures o is Some ==> r == Ok::<T, Error>(o->Some_0), o is None ==> r is Err
+{ match o { Some(v) => Ok(v), None => Err(verif_error()) } }
+impl Vfs {
+    // every path the file set knows maps to a live slab key, and the two maps of the file set agree
+    pub open spec fn wf(&self) -> bool {
+        forall|p: VfsPath| #[trigger] self.local_file_set.files().contains_key(p) ==> {
+            let f = self.local_file_set.files()[p];
+            self.files@.dom().contains(f.0 as int) && self.local_file_set.paths().contains_key(f) && self.local_file_set.paths()[f] == p }
+    }
+}
+
 
 // what a successful edit leaves behind
 pub open spec fn applied(o: Vfs, n: Vfs, file: FileId, new_text: Seq<char>) -> bool {
